@@ -378,6 +378,7 @@ def run_task(name, fn, settings=None, timeout_ms=60000, both=False, min_return_p
     out.returns = sum(1 for r in results if r.kind == "return")
     out.raises = sum(1 for r in results if r.kind == "raise")
     out.branch_checks = ex.branch_checks
+    out.meta["side_conditions_discharged_by_interval_analysis"] = getattr(ex, "range_discharged", 0)
     if out.raises:
         # an exception escaping the harness is never silently accepted
         for r in results:
